@@ -16,12 +16,13 @@ from lib.common import log
 SPEC = common.SPEC / "pool"
 REPO_SRC = ["src/threading/ThreadPool.cpp", "src/threading/Thread.cpp", "src/threading/Runnable.cpp"]
 FLAGS = ["-O1", "-g", "-UNDEBUG", "-fno-omit-frame-pointer"]
-P_EVENTS = {"MaxSet", "Begin", "Submit", "StartRet", "RunBegin", "RunEnd", "Destroy", "ClearCall", "ClearRet", "StopCall", "StopRet",
+P_EVENTS = {"MaxSet", "Begin", "Submit", "StartRet", "StartThrew", "RunBegin", "RunEnd", "Destroy", "ClearCall", "ClearRet", "StopCall", "StopRet",
             "WorkerStart", "WorkerExit", "Quiescent", "Done", "Deadlock", "Crash", "TooLong", "RunOnDead", "DestroyedWhileRunning", "ArgMismatch"}
 C08_EVENTS = {"StopRet", "WorkerStart", "WorkerExit"}
 
 ASSUMPTIONS = [
     "A2: vsched's model of POSIX mutex/condvar/create/join is faithful",
+    "one program in sixteen runs with a failing pthread_create (EAGAIN once, for the first worker): start() throws std::system_error there, which the owner catches",
     "A3: code between two intercepted pthread operations is deterministic; where shared state is touched without a mutex "
     "(m_isRunning before the fix) the model has its own step boundary",
     "one owner thread calls start/clear/stop; workers do not expire (setExpiryTimeout(-1)); tasks do not block on anything",
@@ -152,6 +153,11 @@ def y_scripts(seed, count):
             sched += " stay=%d stayden=%d" % rnd.choice([(1, 2), (3, 4), (1, 4), (7, 8)])
         if rnd.random() < 0.3:
             sched += " spurious=%d" % rnd.choice([20, 60, 150])
+        if i % 16 == 5 and mx >= 1:
+            # the first worker cannot be created (pthread_create fails once with EAGAIN): start() throws, the task stays queued, and the
+            # next start() -- which follows at once, the program begins with two submissions -- spawns the worker that runs both
+            prog = "SS" + prog.replace("M", "S")
+            sched += " failcreate=1"
         cfg = "mode=random max=%d prog=%s %s" % (mx, prog or "Q", sched)
         xid = "y%d" % i
         lines += ["X %s %s" % (xid, cfg), "E"]
